@@ -22,6 +22,15 @@ FRAG_IMITATING = [
     '<defTextVector device="a" name="b" state="Ok" perm="rw"><oneText name="x">v</oneText></defTextVector>',
     "<!-- <getProperties -->", "<![CDATA[<pingRequest uid='1'/>]]>", '<pingReply uid="1"', "<pingRequest>", "</pingRequest>",
     '<setBLOBVector device="a" name="b" state="Ok"><oneBLOB name="x" size="3" format=".b">QUJD', "</oneBLOB></setBLOBVector>",
+    # complete elements whose VALUES are what a validator may choke on: long runs of field separators in a number, long runs
+    # of one character in a state / switch / text value (each stays far below any junk threshold)
+    '<newNumberVector device="a" name="b"><oneNumber name="x">1' + " " * 19 + 'x</oneNumber></newNumberVector>',
+    '<setNumberVector device="a" name="b" state="Ok"><oneNumber name="x">1' + " :" * 10 + '!</oneNumber></setNumberVector>',
+    '<newNumberVector device="a" name="b"><oneNumber name="x">12' + "; " * 11 + '</oneNumber></newNumberVector>',
+    '<newNumberVector device="a" name="b"><oneNumber name="x">' + "1:" * 30 + '</oneNumber></newNumberVector>',
+    '<newNumberVector device="a" name="b"><oneNumber name="x">' + "9" * 60 + "e" + "9" * 60 + '</oneNumber></newNumberVector>',
+    '<newSwitchVector device="a" name="b"><oneSwitch name="x">' + "On" * 40 + '</oneSwitch></newSwitchVector>',
+    '<setLightVector device="a" name="b" state="' + "Ok " * 30 + '"/>',
 ]
 
 FRAG_PLAIN = [
